@@ -20,21 +20,28 @@ theorem step_lifecycle (s : State) (op : Op) (tid : Nat) :
     | some (t, _) =>
         if t = tid then isOutstanding s tid = true ∧ isOutstanding (step s op).1 tid = false
         else isOutstanding (step s op).1 tid = isOutstanding s tid
-    | none => isOutstanding (step s op).1 tid = isOutstanding s tid := by
-  sorry
+    | none => isOutstanding (step s op).1 tid = isOutstanding s tid :=
+  Agent.step_lifecycle s op tid
 
 /-- `request_transaction(id).is_some()` after any history = "the last life-cycle event of `id` is an
     accepted send" -/
 theorem out_iff_live (tr : Transport) (loc : SockAddr) (ops : List Op) (tid : Nat) :
     isOutstanding (after (State.init tr loc) ops) tid = live (trace (State.init tr loc) ops) tid := by
-  sorry
+  rw [(history_lifecycle ops (State.init tr loc) tid).2]
+  have h0 : isOutstanding (State.init tr loc) tid = false := rfl
+  rw [h0]
+  unfold live lastBit
+  cases (eventsOf (trace (State.init tr loc) ops) tid).getLast? <;> simp
 
 /-- exactly once: along any history the events of one id alternate start, ending, start, ending …
     — a request ends at most once (delivered, timed out or cancelled), only after it was started,
     and an id is started again only after it ended -/
 theorem exactly_once (tr : Transport) (loc : SockAddr) (ops : List Op) (tid : Nat) :
     Alternates (eventsOf (trace (State.init tr loc) ops) tid) := by
-  sorry
+  have h := (history_lifecycle ops (State.init tr loc) tid).1
+  have h0 : isOutstanding (State.init tr loc) tid = false := rfl
+  rw [h0] at h
+  exact AltFrom.alternates _ h
 
 /-- a transmission for `tid` is produced only by the accepted `send` that starts it or by a `poll`
     while it is outstanding; the transaction is still outstanding afterwards -/
@@ -43,27 +50,69 @@ theorem tx_only_while_live (s : State) (op : Op) (tid : Nat) (tx : Transmit)
     ((∃ b hc to now, op = .sendReq tid b hc to now) ∧ isOutstanding s tid = false ∨
      (∃ now pick, op = .poll now pick) ∧ isOutstanding s tid = true) ∧
     isOutstanding (step s op).1 tid = true := by
-  sorry
+  cases op with
+  | sendReq t b hc to now =>
+    cases hl : (lookup s.out t).isSome with
+    | true => rw [step_sendReq_dup _ _ _ _ _ _ hl] at h; cases h
+    | false =>
+      rw [step_sendReq_new _ _ _ _ _ _ hl] at h ⊢
+      injection h with h1 _
+      injection h1 with h1
+      subst h1
+      exact ⟨Or.inl ⟨⟨_, _, _, _, rfl⟩, hl⟩, by simp [isOutstanding, lookup_insert_self]⟩
+  | sendOther b to => simp [step] at h
+  | handle m src =>
+    rcases step_handle_cases s m src with ⟨_, e⟩ | ⟨_, _, e⟩ | ⟨r, _, _, e⟩ | ⟨r, _, _, e⟩ <;>
+      (rw [e] at h; cases h)
+  | poll now pick =>
+    have hs : step s (.poll now pick) = agentPoll s now pick := rfl
+    rw [hs] at h ⊢
+    rcases agentPoll_cases s now pick with ⟨t, e⟩ | ⟨t, r, hl, ⟨_, e⟩ | ⟨_, e⟩ | ⟨_, e⟩⟩
+    · rw [e] at h; cases h
+    · rw [e] at h ⊢
+      injection h with h1 _
+      injection h1 with h1
+      subst h1
+      have : isOutstanding s t = true := by simp [isOutstanding, hl]
+      refine ⟨Or.inr ⟨⟨_, _, rfl⟩, this⟩, ?_⟩
+      simpa [isOutstanding, lookup_update_isSome] using this
+    · rw [e] at h; cases h
+    · rw [e] at h; cases h
+  | cancel t => simp [step] at h
+  | cancelRtx t => simp [step] at h
+  | configure t a b c => simp [step] at h
+  | setRemoteCreds k => simp [step] at h
 
 /-- a response for an id that is not outstanding (unknown, already answered, timed out, cancelled)
     is dropped and changes nothing at all -/
 theorem late_or_unknown_response_dropped (s : State) (m : InMsg) (src : SockAddr)
     (hr : m.isResponse = true) (h : isOutstanding s m.tid = false) :
     step s (.handle m src) = (s, .drop) := by
-  sorry
+  have hn : lookup s.out m.tid = none := by
+    simpa [isOutstanding] using h
+  rcases step_handle_cases s m src with ⟨h1, _⟩ | ⟨_, _, e⟩ | ⟨r, _, hl, _⟩ | ⟨r, _, hl, _⟩
+  · rw [hr] at h1; cases h1
+  · exact e
+  · rw [hn] at hl; cases hl
+  · rw [hn] at hl; cases hl
 
 /-- a response is delivered only for a transaction outstanding at that moment, which it ends -/
 theorem delivered_only_outstanding (s : State) (m : InMsg) (src : SockAddr)
     (h : (step s (.handle m src)).2 = .response) :
     m.isResponse = true ∧ isOutstanding s m.tid = true ∧
     isOutstanding (step s (.handle m src)).1 m.tid = false := by
-  sorry
+  rcases step_handle_cases s m src with ⟨_, e⟩ | ⟨_, _, e⟩ | ⟨r, hr, hl, e⟩ | ⟨r, _, _, e⟩
+  · rw [e] at h; cases h
+  · rw [e] at h; cases h
+  · rw [e]
+    exact ⟨hr, by simp [isOutstanding, hl], by simp [isOutstanding, validatedPeer_out, lookup_remove_self]⟩
+  · rw [e] at h; cases h
 
 /-- sending a request whose id is outstanding is refused and leaves everything untouched -/
 theorem dup_send_refused (s : State) (tid : Nat) (b : Bytes) (hc : Bool) (to : SockAddr) (now : Time)
     (h : isOutstanding s tid = true) :
-    step s (.sendReq tid b hc to now) = (s, .inProgress) := by
-  sorry
+    step s (.sendReq tid b hc to now) = (s, .inProgress) :=
+  step_sendReq_dup _ _ _ _ _ _ h
 
 /-- an id that is not outstanding (never used, or completed) can be used: the request is accepted,
     transmitted at once and outstanding afterwards -/
@@ -71,11 +120,12 @@ theorem reuse (s : State) (tid : Nat) (b : Bytes) (hc : Bool) (to : SockAddr) (n
     (h : isOutstanding s tid = false) :
     ∃ tx, (step s (.sendReq tid b hc to now)).2 = .transmit (some tid) tx ∧
       isOutstanding (step s (.sendReq tid b hc to now)).1 tid = true := by
-  sorry
+  rw [step_sendReq_new _ _ _ _ _ _ h]
+  exact ⟨_, rfl, by simp [isOutstanding, lookup_insert_self]⟩
 
 /-- transaction ids stay unique keys along every history -/
-theorem keys_nodup (s : State) (hr : Reachable s) : KeysNodup s := by
-  sorry
+theorem keys_nodup (s : State) (hr : Reachable s) : KeysNodup s :=
+  KeysNodup.of_reachable hr
 
 /-- calls about one transaction never disturb another: whatever the call, a transaction that is
     neither named by it nor served by the poll keeps its complete retransmission state -/
@@ -91,7 +141,45 @@ theorem frame (s : State) (op : Op) (tid : Nat)
       | .configure t _ _ _, _ => t ≠ tid
       | _, _ => True) :
     lookup (step s op).1.out tid = lookup s.out tid := by
-  sorry
+  cases op with
+  | sendReq t b hc to now =>
+    have e : tid ≠ t := fun x => hnot x.symm
+    cases hl : (lookup s.out t).isSome with
+    | true => rw [step_sendReq_dup _ _ _ _ _ _ hl]
+    | false => rw [step_sendReq_new _ _ _ _ _ _ hl]; exact lookup_insert_ne _ _ _ _ e
+  | sendOther b to => rfl
+  | handle m src =>
+    have e : tid ≠ m.tid := fun x => hnot x.symm
+    rcases step_handle_cases s m src with ⟨_, h⟩ | ⟨_, _, h⟩ | ⟨r, _, hl, h⟩ | ⟨r, _, hl, h⟩
+    · rw [h, validatedPeer_out]
+    · rw [h]
+    · rw [h, validatedPeer_out]; exact lookup_remove_ne _ _ _ e
+    · rw [h]; exact lookup_insert_remove _ _ _ _ hl
+  | poll now pick =>
+    have hs : step s (.poll now pick) = agentPoll s now pick := rfl
+    rw [hs] at hnot ⊢
+    rcases agentPoll_cases s now pick with ⟨t, h⟩ | ⟨t, r, hl, ⟨_, h⟩ | ⟨_, h⟩ | ⟨_, h⟩⟩
+    · rw [h]
+    · rw [h] at hnot ⊢
+      have e : tid ≠ t := fun x => hnot x.symm
+      dsimp only
+      exact lookup_update_ne s.out t tid _ e
+    · rw [h] at hnot ⊢
+      have e : tid ≠ t := fun x => hnot x.symm
+      exact lookup_remove_ne _ _ _ e
+    · rw [h] at hnot ⊢
+      have e : tid ≠ t := fun x => hnot x.symm
+      exact lookup_remove_ne _ _ _ e
+  | cancel t =>
+    have e : tid ≠ t := fun x => hnot x.symm
+    simp only [step]; exact lookup_update_ne s.out t tid _ e
+  | cancelRtx t =>
+    have e : tid ≠ t := fun x => hnot x.symm
+    simp only [step]; exact lookup_update_ne s.out t tid _ e
+  | configure t a b c =>
+    have e : tid ≠ t := fun x => hnot x.symm
+    simp only [step]; exact lookup_update_ne s.out t tid _ e
+  | setRemoteCreds k => rfl
 
 /-- liveness: from any reachable state, polling at the instants the agent itself asks for
     (`WaitUntil`) ends every outstanding transaction after finitely many polls: there is a bound,
@@ -107,7 +195,44 @@ def driven : State → Time → Nat → State
 
 theorem eventually_ends (s : State) (hr : Reachable s) (now : Time) :
     ∃ n, (driven s now n).out = [] := by
-  sorry
+  have hsucc : ∀ (s : State) (now : Time), ∃ x, ∀ k,
+      driven s now (k + 1) = driven (step s (.poll now none)).1 x k := by
+    intro s now
+    cases h : step s (.poll now none) with
+    | mk s' o =>
+      cases o with
+      | waitUntil t => exact ⟨t, fun k => by simp only [driven, h]⟩
+      | _ => exact ⟨now, fun k => by simp only [driven, h]⟩
+  have hwait : ∀ (s : State) (now t : Time), step s (.poll now none) = (s, .waitUntil t) →
+      ∀ k, driven s now (k + 1) = driven s t k := by
+    intro s now t h k
+    simp only [driven, h]
+  have key : ∀ (m : Nat) (s : State) (now : Time), KeysNodup s → weight s.out ≤ m →
+      ∃ n, (driven s now n).out = [] := by
+    intro m
+    induction m with
+    | zero =>
+      intro s now _ hw
+      exact ⟨0, weight_eq_zero _ (Nat.le_zero.1 hw)⟩
+    | succ m ih =>
+      intro s now hn hw
+      by_cases he : s.out = []
+      · exact ⟨0, he⟩
+      by_cases hrd : ready s now = []
+      · obtain ⟨t, h1, h2⟩ := poll_wait s now none hrd he
+        have hdec := poll_ready_decreases s t hn h2
+        obtain ⟨x, hx⟩ := hsucc s t
+        obtain ⟨n, hn'⟩ := ih (step s (.poll t none)).1 x (hn.step _)
+          (by have : step s (.poll t none) = agentPoll s t none := rfl
+              rw [this]; omega)
+        exact ⟨n + 1 + 1, by rw [hwait s now t h1, hx]; exact hn'⟩
+      · have hdec := poll_ready_decreases s now hn hrd
+        obtain ⟨x, hx⟩ := hsucc s now
+        obtain ⟨n, hn'⟩ := ih (step s (.poll now none)).1 x (hn.step _)
+          (by have : step s (.poll now none) = agentPoll s now none := rfl
+              rw [this]; omega)
+        exact ⟨n + 1, by rw [hx]; exact hn'⟩
+  exact key _ s now (KeysNodup.of_reachable hr) (Nat.le_refl _)
 
 /-! Non-vacuity: a concrete history with two transactions, a duplicate send, a response, a late
     duplicate response and a time-out. -/
